@@ -24,6 +24,21 @@ EXT_CLASSES = {'FX': 'ForexTransations', 'XR': 'ExchangeRates', 'GOLD': 'Interna
 IGNORED_CALLS = {'Logger', '_AddSector', '_AddCountry', 'print', 'RegisterCurrency', '_RegisterAlias'}
 
 
+def ignored_calls(prog):
+    """calls without an effect on the equations: logging, the bookkeeping of object lists, and - by role - the Model method(s)
+    that record a placeholder in self.Aliases (called `_RegisterAlias` today)"""
+    cached = getattr(prog, '_ignored_calls', None)
+    if cached is None:
+        cached = set(IGNORED_CALLS)
+        M = prog.classes.get('Model')
+        for mf in (M.methods.values() if M is not None else []):
+            if any(isinstance(a_, ast.Assign) and any(isinstance(t_, ast.Subscript) and isinstance(t_.value, ast.Attribute) and
+                                                      t_.value.attr == 'Aliases' for t_ in a_.targets) for a_ in ast.walk(mf.node)):
+                cached.add(mf.name)
+        prog._ignored_calls = cached
+    return cached
+
+
 class P(Val):
     """a value of unknown type (constructor / unit parameter, loop element component): adapts to its use"""
 
@@ -712,7 +727,7 @@ class Interp(object):
                 return self.ev(kw[name], fr)
             return default
         if isinstance(f, ast.Name):
-            if nm in IGNORED_CALLS:
+            if nm in ignored_calls(self.prog):
                 return NONE
             if nm == 'str' or nm == 'repr':
                 v = A(0)
@@ -844,7 +859,7 @@ class Interp(object):
                 p = p.a if isinstance(p.a, P) else p.b
             name = p.name if isinstance(p, P) else unparse(f.value)
             return Coll('dict_items', name)
-        if nm in IGNORED_CALLS:
+        if nm in ignored_calls(self.prog):
             return NONE
         role = None
         if isinstance(recv, (Role, P)):
